@@ -6,7 +6,7 @@ from checks import pscommon
 from engine import core
 
 
-def t1_family(ctx, fam, invariants=("Emit", "GlyphOK"), tier=None):
+def t1_family(ctx, fam, invariants=("Emit", "GlyphOK"), tier=None, workers=None):
     d = ctx.specdir()
     out = "t1-%s.ndjson" % fam
     if os.path.exists(os.path.join(d, out)):
@@ -16,7 +16,7 @@ def t1_family(ctx, fam, invariants=("Emit", "GlyphOK"), tier=None):
     for inv in invariants:
         cfg += "INVARIANT %s\n" % inv
     cfg += "CHECK_DEADLOCK FALSE\n"
-    ctx.tlc("MC_T1Font", cfg, label="t1-" + fam, timeout=2400)
+    ctx.tlc("MC_T1Font", cfg, label="t1-" + fam, timeout=2400, workers=workers)
     return os.path.join(d, out)
 
 
@@ -34,8 +34,17 @@ def run(ctx):
                        "the same direction; OtherSubr 3 answered without hint replacement (DESIGN.md section 10)",
                        "contours are closed explicitly (the form the Type 1 book recommends)"]
     total = 0
-    for fam in ("glyph", "layout", "seac", "fontlevel"):
-        vec = t1_family(ctx, fam, invariants=("Emit", "GlyphOK") if fam in ("glyph", "layout") else ("Emit",))
+    fams = ("glyph", "layout", "seac", "fontlevel")
+    # the four generating runs are independent (most of their time is TLC evaluating the constant
+    # definitions of MC_T1Font): run them side by side
+    ctx.specdir()
+    from concurrent.futures import ThreadPoolExecutor
+    with ThreadPoolExecutor(max_workers=4) as ex:
+        futs = {fam: ex.submit(t1_family, ctx, fam, ("Emit", "GlyphOK") if fam in ("glyph", "layout") else ("Emit",), None, 4)
+                for fam in fams}
+        vecs = {fam: f.result() for fam, f in futs.items()}
+    for fam in fams:
+        vec = vecs[fam]
         summ = ctx.vh_json("replay-t1", vec, timeout=2400)
         pscommon.absorb(ctx, summ, "vh replay-t1 (%s)" % fam, "T1Charstring!T1Run / MC_T1Font!Vector")
         ctx.extra["t1_" + fam] = {"vectors": summ["vectors"], "layouts": summ["per_op"], "features": summ["per_op_ok"]}
